@@ -229,6 +229,26 @@ theorem evaluate_returns (thr : α) (t : ConvTest) (pl : List Nat) (budget : Nat
 
 /-! ### semi-asynchronous value iteration -/
 
+/-- a semi-asynchronous sweep returns one value per state -/
+theorem semiSweep_length (hvalid : C02.Valid P c) (V0 : List α) (perm : Option (List Nat))
+    (hperm : (orderOf' c.n perm).Perm (List.range c.n)) (choose : Nat → Bool) (padv : α) :
+    (semiSweep P c γ V0 perm choose padv).length = P.nS := by
+  have hv18 := C02.valid18 hvalid
+  have hn := hvalid.2.1
+  rw [semiSweep_eq_assemble P c hv18 hn]
+  unfold assemble
+  have hub : ∀ r : List (List (List α)), r.flatten.flatten.length = slots c → (unbatch c r).length = c.n := by
+    intro r hr
+    rw [C18.unbatch_take c hv18 r hr, List.length_take, hr]
+    exact Nat.min_eq_left (slots_ge c hv18.1 hv18.2.1 hv18.2.2)
+  have hlen2 : (((prepare c none ((orderOf' c.n perm).map some)).map (specRun P γ padv V0)).flatten.flatten).length = slots c := by
+    rw [flatten_outs_length _ _ (fun d _ => specRun_length P γ padv V0 d), C18.prepare_layout c hv18]
+    have := C18.slots_eq c hv18
+    simp [hperm.length_eq]; unfold npad at this ⊢; omega
+  cases perm with
+  | none => simp only; rw [hub _ hlen2, hn]
+  | some p => simp [hn]
+
 /-- **Semi-asynchronous sweep, max_diff test** — for every partition (batch size × device count), every permutation of the
     states and every resolution of colliding writes: if one sweep `V1 = G V0` changes no value by ε(1−γ)/γ or more, then `V1`
     is within ε of the optimal values and the greedy policy for `V1` is within 2γε/(1−γ) of optimal at every state -/
@@ -267,20 +287,7 @@ theorem semiasync_maxdiff_near_optimal (S : Setting P c γ) (hw : IdxWF P)
     rw [← hWget s hs]
     exact semiSweep_contracts P c hv18 hn hw γ S.hγ0.le S.hγ1.le S.stoch S.hA Wst hWl hfix V0 hV0 δ0 hδ0nn hclose perm hperm choose 0 s hs
   -- length of V1 and the measure as a sup norm
-  have hV1len : V1.length = P.nS := by
-    rw [hV1, semiSweep_eq_assemble P c hv18 hn]
-    unfold assemble
-    have hub : ∀ r : List (List (List α)), r.flatten.flatten.length = slots c → (unbatch c r).length = c.n := by
-      intro r hr
-      rw [C18.unbatch_take c hv18 r hr, List.length_take, hr]
-      exact Nat.min_eq_left (slots_ge c hv18.1 hv18.2.1 hv18.2.2)
-    have hlen2 : (((prepare c none ((orderOf' c.n perm).map some)).map (specRun P γ 0 V0)).flatten.flatten).length = slots c := by
-      rw [flatten_outs_length _ _ (fun d _ => specRun_length P γ 0 V0 d), C18.prepare_layout c hv18]
-      have := C18.slots_eq c hv18
-      simp [hperm.length_eq]; unfold npad at this ⊢; omega
-    cases perm with
-    | none => simp only; rw [hub _ hlen2, hn]
-    | some p => simp [hn]
+  have hV1len : V1.length = P.nS := semiSweep_length P c γ S.valid V0 perm hperm choose 0
   set m := maxDiff V1 V0 with hm
   have hmnorm : m = vnorm (fun j => toFn P.nS V1 j - toFn P.nS V0 j) := maxDiff_eq_vnorm P.nS V1 V0 hV1len hV0
   -- δ0 ≤ m + γ δ0
@@ -323,6 +330,57 @@ theorem semiasync_maxdiff_near_optimal (S : Setting P c γ) (hw : IdxWF P)
   have : 2 * γ * (γ * (m / (1 - γ))) < 2 * γ * ε := by
     apply mul_lt_mul_of_pos_left hγm; linarith [S.hγ0]
   exact this
+
+/-- shape of a converged semi-asynchronous result: the returned values are one semi-asynchronous sweep (with the permutation
+    drawn for that iteration) of some `V0` of the right length whose test is below the threshold, and the returned policy is
+    extracted from the returned values -/
+theorem semi_converged_shape (hvalid : C02.Valid P c) (thr : α) (t : ConvTest) (perms : Nat → Option (List Nat))
+    (hperms : ∀ n, (orderOf' c.n (perms n)).Perm (List.range c.n)) (choose : Nat → Bool) (f k : Nat) (s : SState α)
+    (hs : s.values.length = P.nS)
+    (hc : (semiSolve P c γ thr t perms choose f k s).converged = true) :
+    ∃ (V0 : List α) (n : Nat), V0.length = P.nS ∧
+      (semiSolve P c γ thr t perms choose f k s).state.values = semiSweep P c γ V0 (perms n) choose 0 ∧
+      convMeasure t (semiSweep P c γ V0 (perms n) choose 0) V0 < thr ∧
+      (semiSolve P c γ thr t perms choose f k s).state.policy =
+        some (policy P c γ (semiSolve P c γ thr t perms choose f k s).state.values 0) := by
+  obtain ⟨h1, h2, _⟩ := C08.solve_first_below (semiStep P c γ thr t perms choose) (·.iter) (viFinish P c γ) f k s
+  simp only [semiSolve] at hc ⊢
+  obtain ⟨hm, hfire, _⟩ := h2 hc
+  set m := (solveCall (semiStep P c γ thr t perms choose) (fun x => x.iter) (viFinish P c γ) f k s).sweeps with hmdef
+  have hm' : m = (m - 1) + 1 := by omega
+  set s0 := iterState (semiStep P c γ thr t perms choose) (m - 1) s with hs0
+  have hlen : s0.values.length = P.nS := by
+    rcases Nat.eq_zero_or_pos (m - 1) with h0 | h0
+    · rw [hs0, h0]; simpa [iterState] using hs
+    · have : m - 1 = (m - 1 - 1) + 1 := by omega
+      rw [hs0, this, iterState_succ']
+      simp only [semiStep]; exact semiSweep_length P c γ hvalid _ _ (hperms _) choose 0
+  have hstate : iterState (semiStep P c γ thr t perms choose) m s = (semiStep P c γ thr t perms choose s0).1 := by
+    rw [hm', iterState_succ']
+  refine ⟨s0.values, s0.iter + 1, hlen, ?_, ?_, ?_⟩
+  · rw [h1, hstate]; simp [viFinish, semiStep]
+  · exact (C08.semiStep_done_iff P c γ thr t perms choose s0).mp hfire
+  · rw [h1]; simp [viFinish]
+
+/-- **Semi-asynchronous value iteration, max_diff test, whole `solve()` call** — for every partition, every sequence of
+    per-sweep permutations, every resolution of colliding writes, every checkpoint frequency, iteration budget and starting
+    state: if `solve` reports convergence, the returned values are within ε of optimal and the returned policy's exact value
+    is within 2γε/(1−γ) of optimal at every state -/
+theorem semiasync_solve_near_optimal (S : Setting P c γ) (hw : IdxWF P) (perms : Nat → Option (List Nat))
+    (hperms : ∀ n, (orderOf' c.n (perms n)).Perm (List.range c.n)) (choose : Nat → Bool) (f k : Nat) (s : SState α)
+    (hs : s.values.length = P.nS)
+    (hc : (semiSolve P c γ (ε * (1 - γ) / γ) .maxDiff perms choose f k s).converged = true)
+    (pl : List Nat) (hpl : (semiSolve P c γ (ε * (1 - γ) / γ) .maxDiff perms choose f k s).state.policy = some pl)
+    (W U : Fin P.nS → α) (hW : Top P γ W = W) (hU : Tpol P γ (polFn P.nS pl) U = U) (i : Fin P.nS) :
+    |toFn P.nS (semiSolve P c γ (ε * (1 - γ) / γ) .maxDiff perms choose f k s).state.values i - W i| < ε ∧
+    0 ≤ W i - U i ∧ W i - U i < 2 * γ * ε / (1 - γ) := by
+  obtain ⟨V0, n, hV0, hvals, htest, hpol⟩ :=
+    semi_converged_shape P c γ S.valid (ε * (1 - γ) / γ) .maxDiff perms hperms choose f k s hs hc
+  rw [hpol] at hpl
+  have hpl' := (Option.some.inj hpl).symm
+  rw [hvals] at hpl' ⊢
+  subst hpl'
+  exact semiasync_maxdiff_near_optimal P c γ ε S hw (perms n) (hperms n) choose V0 hV0 htest W U hW hU i
 
 /-! non-vacuity: the 2-state example is a `Setting`; its optimal value is an explicit fixed point over ℚ -/
 example : Setting C02.exP ⟨2, 1, 1⟩ (1/2 : Rat) :=
